@@ -24,26 +24,43 @@ def _ts_ok(got: str, ns: int) -> bool:
 
 
 def _drive(spans: dict, order: list[str], async_flag: bool, groups: dict, rename: dict):
+    return _drive_many([(spans, order)], async_flag, groups, rename)
+
+
+def _drive_many(traces: list[tuple[dict, list[str]]], async_flag: bool, groups: dict,
+                rename: dict):
+    """One call of the real sequencer over several traces (the way otel_to_pv uses it)."""
     from tel2puml.otel_to_pv.otel_to_pv_types import OTelEvent, OTelEventTypeMap
     from tel2puml.otel_to_pv.sequence_otel import sequence_otel_job_id_streams
-    events = [
+    streams = [[
         OTelEvent(job_name=s["job_name"], job_id=s["job_id"], event_type=s["type"],
                   event_id=s["id"], start_timestamp=s["start"], end_timestamp=s["end"],
                   application_name=s["app"], parent_event_id=s["parent"],
                   child_event_ids=list(s["children"]))
         for s in (spans[i] for i in order)
-    ]
+    ] for spans, order in traces]
     rn = {t: OTelEventTypeMap(mapped_event_type=m, child_event_types=set(c))
           for t, (m, c) in rename.items()} or None
     out = []
-    for job in sequence_otel_job_id_streams([events], async_flag, groups or None, rn):
+    for job in sequence_otel_job_id_streams(streams, async_flag, groups or None, rn):
         out.append(list(job))
     return out
 
 
+def companion(spans: dict, rng: random.Random, tag: str, alphabet: list[str]) -> dict:
+    """The same tree and windows as another trace of the same workflow: new ids, types drawn
+    again from `alphabet`."""
+    ren = {k: f"{tag}-{k}" for k in spans}
+    return {ren[k]: dict(s, id=ren[k], job_id="trace-" + tag, type=rng.choice(alphabet),
+                         parent=ren[s["parent"]] if s["parent"] else None,
+                         children=[ren[c] for c in s["children"]])
+            for k, s in spans.items()}
+
+
 def judge(spans: dict, root: str, async_flag: bool, groups: dict, rename: dict,
-          order: list[str]) -> tuple[str, dict | None]:
-    """('held'|'skip:<why>'|'violated:<symptom>', detail)"""
+          order: list[str], pv: list | None = None) -> tuple[str, dict | None]:
+    """('held'|'skip:<why>'|'violated:<symptom>', detail).  pv: the job already emitted for
+    this trace by a call that sequenced several traces at once."""
     types = refseq.apply_rename(spans, rename)
     orig_types = {k: s["type"] for k, s in spans.items()}
     want = refseq.reference(spans, root, async_flag, groups, types)
@@ -54,13 +71,14 @@ def judge(spans: dict, root: str, async_flag: bool, groups: dict, rename: dict,
             return "skip:touching windows (end == start; strictness not documented)", None
         if groups and refseq.reference(spans, root, True, groups, types, span_level=True) != want:
             return "skip:async-x-groups (unit-level vs span-level overlap not documented)", None
-    try:
-        jobs = _drive(spans, order, async_flag, groups, rename)
-    except Exception as exc:
-        return f"violated:exception:{type(exc).__name__}", {"exc": repr(exc)[:300]}
-    if len(jobs) != 1:
-        return "violated:job-count", {"jobs": len(jobs)}
-    pv = jobs[0]
+    if pv is None:
+        try:
+            jobs = _drive(spans, order, async_flag, groups, rename)
+        except Exception as exc:
+            return f"violated:exception:{type(exc).__name__}", {"exc": repr(exc)[:300]}
+        if len(jobs) != 1:
+            return "violated:job-count", {"jobs": len(jobs)}
+        pv = jobs[0]
     ids = [e["eventId"] for e in pv]
     if sorted(ids) != sorted(spans):
         return "violated:span-missing-or-duplicated", {"got": sorted(ids), "want": sorted(spans)}
@@ -156,6 +174,39 @@ def run_chunk(case: dict) -> dict:
             bump("mode:" + ("async" if async_flag else "sync") + ("+groups" if groups else "")
                  + ("+rename" if rename else ""))
             record(v, d, spans, root, async_flag, groups, rename, order)
+            if (rename or groups) and len(spans) >= 2 and rng.random() < 0.3:
+                # several traces of the workflow in ONE call, as otel_to_pv does: the trace
+                # itself, a twin with other types and one without any renamable type
+                alpha = sorted({s["type"] for s in spans.values()} | set(rename) | set(groups))
+                plain = [a for a in alpha if a not in rename] or alpha
+                traces = [(spans, root, order)]
+                for tag, al in (("t2", alpha), ("t3", plain)):
+                    sp2 = companion(spans, rng, tag, al)
+                    o2 = list(sp2)
+                    rng.shuffle(o2)
+                    traces.append((sp2, f"{tag}-{root}", o2))
+                rng.shuffle(traces)
+                try:
+                    jobs = _drive_many([(t[0], t[2]) for t in traces], async_flag, groups, rename)
+                    by_job = {j[0]["jobId"]: j for j in jobs if j}
+                    if len(jobs) != len(traces) or len(by_job) != len(traces):
+                        v, d = "violated:multi-trace:job-count", {"jobs": len(jobs)}
+                        record(v, d, spans, root, async_flag, groups, rename, order)
+                    else:
+                        for sp_i, root_i, o_i in traces:
+                            jid = next(iter(sp_i.values()))["job_id"]
+                            v, d = judge(sp_i, root_i, async_flag, groups, rename, o_i,
+                                         pv=by_job.get(jid, []))
+                            if v.startswith("violated"):
+                                v = "violated:multi-trace:" + v[9:]
+                                d = dict(d or {}, position_in_call=[t[1] for t in traces].index(root_i),
+                                         traces_in_call=len(traces))
+                            n_eval += 1
+                            bump("multi_trace_call_jobs")
+                            record(v, d, sp_i, root_i, async_flag, groups, rename, o_i)
+                except Exception as exc:  # noqa: BLE001 - the sequencer is code under test
+                    record(f"violated:multi-trace:exception:{type(exc).__name__}",
+                           {"exc": repr(exc)[:300]}, spans, root, async_flag, groups, rename, order)
             key = core.digest([[s["type"], s["parent"], s["start"], s["end"]]
                                for s in spans.values()] + [async_flag, groups, sorted(rename)])
             if len(spans) > 1:
@@ -198,7 +249,9 @@ def main(tier: str, seed: int) -> int:
              "{sync,async} x 4 prior-information variants; (b) seeded random trees of 1..30 "
              "spans (plain, long-span-overlapping-later-short-ones, nested windows, deep, wide) "
              "x random async flag / group maps / rename maps, spans presented in shuffled "
-             "order. distinct = distinct (shape, windows, config) tuples; single-span trees "
+             "order; for ~30% of the configured cases the trace, a re-typed twin and a twin "
+             "without renamable types go through ONE sequencer call in shuffled order, each "
+             "emitted job judged on its own. distinct = distinct (shape, windows, config) tuples; single-span trees "
              "count as trivial in (b)")
     chk.assumptions = [
         "reference sequencer = my reading of docs/user/sequencer_HOWTO.md (vlib/refseq.py)",
